@@ -144,7 +144,7 @@ Qed.
 (* ---- refusal ---- *)
 Theorem queue_refusal_explicit c s m s' evs :
   queueMsg c s m = (s', evs) ->
-  (exists e, evs = [Accepted e] /\ snd e = m /\ Permutation (pending s') (e :: pending s))
+  (exists e, evs = [Accepted FromQueue e] /\ snd e = m /\ Permutation (pending s') (e :: pending s))
   \/ (evs = [Refused true m] /\ s' = s).
 Proof.
   unfold queueMsg, enqueue. destruct (zombie s).
@@ -159,7 +159,7 @@ Qed.
 
 Theorem send_refusal_on_domain s m s' evs :
   zombie s = false -> sendMsg s m = (s', evs) ->
-  exists e, evs = [Accepted e] /\ snd e = m /\ fast s' = fast s ++ [e].
+  exists e, evs = [Accepted FromFast e] /\ snd e = m /\ fast s' = fast s ++ [e].
 Proof.
   unfold sendMsg. intros Z. rewrite Z. intro H; inversion H; subst.
   exists (nxt s, m). destruct s; cbn. auto.
@@ -245,4 +245,15 @@ Proof.
   rewrite DQ.
   unfold finish. destruct (filt (snd e)); do 3 eexists; (split; [reflexivity|]); (split; [left; reflexivity|]);
     destruct s; cbn; auto.
+Qed.
+
+(* a refusal by queueMsg has a reason: the Irc is dying, or queuing.duplicates is
+   on and an equal message is waiting in the queue *)
+Theorem refusal_has_reason c s m s' evs e :
+  queueMsg c s m = (s', evs) -> In (Refused e m) evs ->
+  zombie s = true \/ (c_dup c = true /\ q_contains s m = true).
+Proof.
+  unfold queueMsg, enqueue. destruct (zombie s); [auto|].
+  destruct (q_contains s m) eqn:EQ; destruct (c_dup c) eqn:ED; simpl; auto;
+    destruct (classify (mcmd m)); intro H; inversion H; subst; intros [K|[]]; discriminate.
 Qed.
